@@ -41,12 +41,17 @@ CLAIMS = {
               "resolve_readback_moves, fromMs_moves (on the fragment Tame' — every same-time group of -es/-ej is a GoodGroup: no population is the source of a move after being the target "
               "of an earlier one, 0 < p <= 1, not at time 0 — the ancestry and pulses written encode the interpreter's movement matrices); and the assembled fromMs_sem (under the decidable "
               "parsersAgree) / fromMs_sem_plain (under PlainTokens): from_ms accepted + command has a meaning + Tame' => SemAgree(msSem command, graphSem result). goodGroup_of_tame: the "
-              "fragment contains the earlier Tame. The full property is FALSE on the unchanged tree: fromMs_order_counterexample (F4), fromMs_split_of_new_population_counterexample (F5), "
+              "fragment contains the earlier Tame. The fragment is widened twice: fromMs_sem' / fromMs_sem_plain' drop the 'not at time 0' clause (fromMs_rejects_join_at_zero: every "
+              "command with an -ej at time 0 is refused; fromMs_rejects_moves_at_zero_counterexample: '-es 0 i 1.0' IS accepted, and correctly so; fromMs_rejects_moves_at_zero_partial), "
+              "and fromMs_sem2 / fromMs_sem2_plain hold on Tame2 (GoodGroup2: a population may be the source of a move after being the target of an earlier JOIN, and join chains a->b, "
+              "b->c are allowed as long as nothing later moves out of c) — the shapes of F5, F21, F22, F6b stay outside, joinThenSplit / chainSameTime are inside; "
+              "tame2_exact_on_table: on the finite table of all 600 commands '-I 3 1 1 1' + at most two -es/-ej options at one time, Tame2 holds exactly for the commands both sides accept "
+              "and convert correctly (decide +kernel over the table: a finite quantifier). The full property is FALSE on the unchanged tree: fromMs_order_counterexample (F4), fromMs_split_of_new_population_counterexample (F5), "
               "fromMs_interleaved_pairs_counterexample (F21), fromMs_join_chain_counterexample (F22), fromMs_split_p0_counterexample (F6b) are proved on the concrete commands (known "
               "findings), all outside Tame'. Model tied to from_ms by exact comparison of accept/reject and the resolved graph on thousands of commands per run (all orders of same-time "
               "options, off/on migration with an identical rate; exhaustive small scope in the thorough tier); Spec.MsSem.msSem(command) is compared with the real graph's semantics on "
               "every accepted command."),
-        note=NOTE_COMMON + " PARTIAL where the property is false (known findings F4, F5, F6b, F21, F22: commands outside Tame') and for GoodGroup being sufficient, not exact. Reading of -eM/-ema after a join per DESIGN §9."),
+        note=NOTE_COMMON + " PARTIAL where the property is false (known findings F4, F5, F6b, F21, F22: commands outside Tame2) and for GoodGroup2 being sufficient, not exact, beyond two same-time options. Reading of -eM/-ema after a join per DESIGN §9."),
     "C09": dict(
         category="proof", design_ref="§7 C09",
         technique="Lean 4 theorems over a hand-written model of ms.py's option records, printer and argparse layer (print/parse round trip for every option kind relative to an explicit number-codec hypothesis); composed round-trip refinement theorem ms_roundtrip_sem_tame (C07's to_ms refinement + C08's from_ms refinement, bridged between the two interpreters) for constant-size graphs + differential correspondence and semantic round-trip comparison through an independent ms interpreter",
@@ -60,12 +65,17 @@ CLAIMS = {
               "interpreter Spec.MsSem gives the image of the typed interpreter's demography), ms_roundtrip_sem_partial / ms_roundtrip_sem_tame (such a graph with ancestry proportions "
               "summing to exactly 1 and PulsesTame pulses — proportions < 1, no pulse chain A->B listed before B->C at one time: if from_ms accepts to_ms's output, the returned graph's "
               "demography refines the original's: same populations in order, same lifetimes, same size at every time, same migration rate at every cut point, same lineage "
-              "movements), toMs_output_tame (the output of to_ms is in the fragment Tame' of C08), the counterexamples showing each hypothesis is needed "
+              "movements), toMs_output_tame (the output of to_ms is in the fragment Tame' of C08), ms_roundtrip_accepts (from_ms ACCEPTS everything to_ms prints for such graphs: "
+              "toMs_output_parses, toMs_output_validators_ok, buildState_never_raises — the event loop never raises on a command the ms interpreter runs —, toMs_output_finishDoc_ok: "
+              "the assembled document satisfies C03's specification, so resolve accepts it), hence the unconditional ms_roundtrip_sem / ms_roundtrip_sem_all (for EVERY valid "
+              "ms-expressible graph with constant-size epochs and PulsesTame pulses: from_ms(to_ms(g)) returns a graph whose demography refines that of g with normalised ancestry "
+              "proportions — g itself when they sum to exactly 1), the counterexamples showing each hypothesis is needed "
               "(ms_roundtrip_acceptance_counterexample = ms_roundtrip_pulse1_counterexample: known finding F6; toMs_tame_needs_pulse_order, toMs_tame_needs_pulse_below_one), "
-              "toMs_fromMs_structure (single deme: acceptance proved too). Acceptance of to_ms's output by from_ms in general, and epochs with exponential growth (printing "
-              "-ln(r)/dt as a decimal needs real analysis and float rounding), are NOT theorems: they are checked by the differential — Model of to_ms/from_ms = code exactly "
+              "ms_roundtrip_accepts_order_not_necessary (the pulse-order clause of PulsesTame comes from the method: a chain A->B, B->C at one time is accepted), "
+              "ingress_tolerance_witness. Epochs with exponential growth (printing "
+              "-ln(r)/dt as a decimal needs real analysis and float rounding) are NOT covered by the theorem: they are checked by the differential — Model of to_ms/from_ms = code exactly "
               "(0 disagreements on thousands of graphs per run) and the independent interpreter Spec.MsSem agrees with the graph's demography on every round trip."),
-        note=NOTE_COMMON + " PARTIAL: for exponential epochs and for acceptance by from_ms the semantic round trip rests on correspondence + the Spec interpreter, not on a theorem. Number printing (str(float), format '.10f') is an explicit hypothesis; sizes/growth from math.exp/log are carried symbolically and compared at 1e-9."),
+        note=NOTE_COMMON + " PARTIAL: for exponential epochs (and pulses outside PulsesTame) the semantic round trip rests on correspondence + the Spec interpreter, not on a theorem. Number printing (str(float), format '.10f') is an explicit hypothesis; sizes/growth from math.exp/log are carried symbolically and compared at 1e-9."),
     "C04": dict(
         category="proof", design_ref="§7 C04",
         technique="Lean 4 composition theorems for the dump/load pipelines relative to explicit codec laws (hypotheses, tested on the installed ruamel.yaml/json) built on resolve_asdict, simplify_resolves and the C16 lemmas + end-to-end round-trip testing on the real text layer",
